@@ -1,7 +1,5 @@
-import EgVerif.Model.Delivery
 import EgVerif.Model.SessionQueue
 import EgVerif.Gen.FactsC15IR
-import EgVerif.Proofs.Topic
 /-!
 # C15: the definitions regenerated from `broker.go` / `session.go` equal the hand-written model
 
@@ -10,40 +8,6 @@ bodies of `Broker.sendMsgToClient`, `Session.getPacketFromMsg / publish / puback
 below proves the generated definition equal to the model function for ALL inputs; they are re-exported
 (together with `extractionFailed = false`) from `Props/C15.lean`.
 -/
-namespace EgVerif.Delivery
-open EgVerif.Topic EgVerif.Gen.FactsC15IR
-
-theorem send_regenerated_from_source_loop (conn : Client → Bool) (s0 : List (Client × Nat)) (nl : Bool)
-    (qos : Nat) (sb : List (Client × Nat)) : ∀ (l : List (Client × Nat)) (out : List (Client × Nat)),
-    sendIR_loop1 conn s0 nl qos out sb l = .inr (out ++ (send conn qos l).map (fun c => (c, qos))) := by
-  intro l
-  induction l with
-  | nil => intro out; simp [sendIR_loop1, send]
-  | cons p r ih =>
-    intro out
-    obtain ⟨c, sq⟩ := p
-    simp only [sendIR_loop1, send]
-    by_cases h : sq < qos
-    · simp only [h, decide_true, if_true]; exact ih out
-    · simp only [h, decide_false, Bool.false_eq_true, if_false]
-      by_cases hc : conn c = true
-      · simp only [getClientE, hc, if_true, Option.isNone_some, Bool.false_eq_true, if_false, Option.getD_some]
-        rw [ih]; simp
-      · simp only [getClientE, hc, Bool.false_eq_true, if_false, Option.isNone_none, if_true]
-        exact ih out
-
-/-- `Broker.sendMsgToClient`: for every visiting order `subs` of the subscriber map the generated loop calls
-`session.publish` exactly for `Model.Delivery.send conn qos subs`, each with the message's QoS; a nil map
-(`findSubscribers` failed) reaches nobody. -/
-theorem send_regenerated_from_source (conn : Client → Bool) (subs : List (Client × Nat)) (qos : Nat) :
-    sendIR conn subs false qos = (send conn qos subs).map (fun c => (c, qos)) ∧
-    sendIR conn subs true qos = [] := by
-  constructor
-  · simp [sendIR, send_regenerated_from_source_loop]
-  · simp [sendIR]
-
-end EgVerif.Delivery
-
 namespace EgVerif.SessionQueue
 open EgVerif.Topic (alGet alSet alErase)
 open EgVerif.Gen.FactsC15IR
@@ -87,18 +51,6 @@ theorem publish_regenerated_from_source (online full : Bool) (m : Msg) (s : Sess
 /-- `Session.puback` -/
 theorem puback_regenerated_from_source (i : Nat) (s : Sess) : pubackIR i s = puback i s := rfl
 
-/-- `processPublish` (client.go): a PUBACK carrying the inbound packet's id is written iff its QoS is 1 — the
-PUBACK part of `onPublish` once the publish limiter admitted the packet and the pipeline did not object -/
-theorem processPublish_regenerated_from_source (qos i : Nat) :
-    processPublishIR qos i = (onPublish true .ok qos i).puback.toList ∧
-    processPublishIR qos i = (onPublish true .notConfigured qos i).puback.toList := by
-  unfold processPublishIR onPublish
-  by_cases h0 : qos = 0
-  · subst h0; simp
-  · by_cases h1 : qos = 1
-    · subst h1; simp
-    · simp [h0, h1]
-
 theorem doResend_regenerated_from_source_loop (online : Bool) (s : Sess) (P : List (Nat × Msg)) (Q : List Nat)
     (n : Nat) (out : List Packet) (client : Option Unit) :
     ∀ (q pre : List Nat) (pid pq : Nat) (pt pp : String), Q = pre ++ q →
@@ -141,82 +93,3 @@ theorem doResend_regenerated_from_source (online : Bool) (s : Sess) :
       cases online <;> simp [clientOf]
 
 end EgVerif.SessionQueue
-
-namespace EgVerif.Topic
-open EgVerif.Gen.FactsC15IR
-
-theorem addClients_regenerated_from_source_loop (cls ans0 : List (Client × Nat)) :
-    ∀ (l ans : List (Client × Nat)), addClientsIR_loop1 cls ans0 ans l = .inr (l.foldl addMaxStep ans) := by
-  intro l
-  induction l with
-  | nil => intro ans; rfl
-  | cons p r ih =>
-    intro ans
-    obtain ⟨c, q⟩ := p
-    cases hg : alGet c ans with
-    | none => simp [addClientsIR_loop1, lookupQ, List.foldl_cons, addMaxStep, hg, ih]
-    | some old =>
-      by_cases h : q > old <;> simp [addClientsIR_loop1, lookupQ, List.foldl_cons, addMaxStep, hg, h, ih]
-
-/-- **`topicNode.addClients`** (the site of fix bcc037f): the loop keeps, per client, the larger of the QoS
-already in the result map and the node's — `Model.Topic.addMax`. -/
-theorem addClients_regenerated_from_source (cls ans : List (Client × Nat)) :
-    addClientsIR cls ans = addMax cls ans := by
-  simp [addClientsIR, addMax, addClients_regenerated_from_source_loop]
-
-/-- combination of "already in the map" and "highest own QoS among the new hits" -/
-def optMax : Option Nat → Option Nat → Option Nat
-  | none, x => x
-  | x, none => x
-  | some a, some b => some (max a b)
-
-theorem alGet_addMaxStep (c : Client) (ans : List (Client × Nat)) (p : Client × Nat) :
-    alGet c (addMaxStep ans p) = if p.1 = c then optMax (alGet c ans) (some p.2) else alGet c ans := by
-  obtain ⟨c', q⟩ := p
-  simp only [addMaxStep]
-  by_cases e : c' = c
-  · subst e
-    cases hg : alGet c' ans with
-    | none => simp [alGet_alSet, optMax]
-    | some old =>
-      by_cases h : q > old
-      · have : max old q = q := by omega
-        simp [h, alGet_alSet, optMax, this]
-      · have : max old q = old := by omega
-        simp [h, hg, optMax, this]
-  · have e' : ¬ c = c' := fun x => e x.symm
-    cases hg : alGet c' ans with
-    | none => simp [alGet_alSet, e, e']
-    | some old => by_cases h : q > old <;> simp [h, alGet_alSet, e, e']
-
-theorem optMax_assoc_own (a : Option Nat) (q : Nat) (o : Option Nat) :
-    optMax (optMax a (some q)) o = optMax a (match o with | some q' => some (max q q') | none => some q) := by
-  cases a <;> cases o <;> simp [optMax, Nat.max_assoc]
-
-/-- the map built by successive `addClients` calls holds, per client, the maximum of what was there and of its
-own hits — so starting from the empty map it is `collapseMax` of all hits, as a map -/
-theorem alGet_addMax (c : Client) : ∀ (l ans : List (Client × Nat)),
-    alGet c (addMax l ans) = optMax (alGet c ans) (ownMax c l) := by
-  intro l
-  induction l with
-  | nil => intro ans; cases h : alGet c ans <;> simp [addMax, ownMax, optMax, h]
-  | cons p r ih =>
-    intro ans
-    obtain ⟨c', q⟩ := p
-    have hstep : addMax ((c', q) :: r) ans = addMax r (addMaxStep ans (c', q)) := rfl
-    rw [hstep, ih, alGet_addMaxStep]
-    simp only [ownMax]
-    by_cases e : c' = c
-    · simp only [e, if_true]
-      exact optMax_assoc_own _ _ _
-    · simp only [e, if_false]
-
-theorem addMax_eq_collapseMax_map (hits : List (Client × Nat)) (c : Client) :
-    alGet c (addMax hits []) = alGet c (collapseMax hits) := by
-  rw [alGet_addMax, alGet_collapseMax]
-  simp [alGet, optMax]
-
-theorem addMax_append (h1 h2 ans : List (Client × Nat)) : addMax h2 (addMax h1 ans) = addMax (h1 ++ h2) ans := by
-  simp [addMax, List.foldl_append]
-
-end EgVerif.Topic
